@@ -15,6 +15,7 @@
 package main
 
 import (
+	"bytes"
 	"encoding/json"
 	"fmt"
 	"math/rand"
@@ -28,6 +29,7 @@ import (
 	"time"
 
 	"github.com/datastax/go-cassandra-native-protocol/client"
+	"github.com/datastax/go-cassandra-native-protocol/datatype"
 	"github.com/datastax/go-cassandra-native-protocol/frame"
 	"github.com/datastax/go-cassandra-native-protocol/message"
 	"github.com/datastax/go-cassandra-native-protocol/primitive"
@@ -119,28 +121,84 @@ func requestFrame(k int) *frame.Frame {
 	return frame.NewFrame(primitive.ProtocolVersion4, int16(k), &message.Options{})
 }
 
-// a response frame for stream id k carrying tag; last decides isLastFrame (continuous paging metadata)
+// a response frame for stream id k carrying tag; last decides isLastFrame (continuous paging metadata).
+// The pages take EVERY shape the codec supports, chosen by the tag: DSE v1 / DSE v2, with and without a paging state,
+// with column specifications or NO_METADATA, and (DSE v2) with and without a new result metadata id; page numbers
+// 1..1000. The frame is ENCODED AND DECODED by the real frame codec before it is handed to the code under study, so
+// the message-level helpers (RowsMetadata.Flags, the RESULT codec) take part in what isLastFrame sees.
+func pageShape(tag int64) (v primitive.ProtocolVersion, meta *message.RowsMetadata, what string) {
+	v = primitive.ProtocolVersionDse2
+	if tag%7 == 3 {
+		v = primitive.ProtocolVersionDse1
+	}
+	meta = &message.RowsMetadata{ColumnCount: 0, ContinuousPageNumber: int32(tag%1000) + 1}
+	what = fmt.Sprintf("%v page %d", v, meta.ContinuousPageNumber)
+	if tag%2 == 1 {
+		meta.PagingState = []byte{0xca, 0xfe}
+		what += " +paging-state"
+	}
+	if tag%3 == 1 && v == primitive.ProtocolVersionDse2 {
+		meta.NewResultMetadataId = []byte{1, 2, 3, 4}
+		what += " +new-metadata-id"
+	}
+	if tag%4 == 2 {
+		meta.ColumnCount = 1
+		meta.Columns = []*message.ColumnMetadata{{Keyspace: "ks", Table: "t", Name: "c", Type: datatype.Int}}
+		what += " +columns"
+	} else {
+		what += " no-metadata"
+	}
+	return
+}
+
+var responseCodec = frame.NewCodec()
+
 func responseFrame(k int, last bool, tag int64) *frame.Frame {
 	var msg message.Message
+	v := primitive.ProtocolVersionDse2
 	if !last {
-		msg = &message.RowsResult{Metadata: &message.RowsMetadata{ColumnCount: 0, ContinuousPageNumber: int32(tag%1000) + 1, LastContinuousPage: false}}
+		var meta *message.RowsMetadata
+		v, meta, _ = pageShape(tag)
+		meta.LastContinuousPage = false
+		msg = &message.RowsResult{Metadata: meta, Data: message.RowSet{}}
 	} else {
 		switch tag % 5 {
 		case 0:
 			msg = &message.VoidResult{}
 		case 1:
-			msg = &message.RowsResult{Metadata: &message.RowsMetadata{ColumnCount: 0, ContinuousPageNumber: int32(tag%1000) + 1, LastContinuousPage: true}}
+			var meta *message.RowsMetadata
+			v, meta, _ = pageShape(tag)
+			meta.LastContinuousPage = true
+			msg = &message.RowsResult{Metadata: meta, Data: message.RowSet{}}
 		case 2:
-			msg = &message.RowsResult{Metadata: &message.RowsMetadata{ColumnCount: 0}} // not continuous paging
+			msg = &message.RowsResult{Metadata: &message.RowsMetadata{ColumnCount: 0}, Data: message.RowSet{}} // not continuous paging
 		case 3:
 			msg = &message.Ready{}
 		default:
 			msg = &message.Unavailable{ErrorMessage: "x", Consistency: primitive.ConsistencyLevelOne, Required: 1, Alive: 0}
 		}
 	}
-	f := frame.NewFrame(primitive.ProtocolVersionDse2, int16(k), msg)
-	f.Body.CustomPayload = map[string][]byte{"t": []byte(strconv.FormatInt(tag, 10))}
-	return f
+	f := frame.NewFrame(v, int16(k), msg)
+	f.SetCustomPayload(map[string][]byte{"t": []byte(strconv.FormatInt(tag, 10))})
+	// through the wire format and back
+	buf := &bytes.Buffer{}
+	if err := responseCodec.EncodeFrame(f, buf); err != nil {
+		panic(fmt.Sprintf("harness: response frame does not encode (tag %d): %v", tag, err))
+	}
+	decoded, err := responseCodec.DecodeFrame(buf)
+	if err != nil {
+		panic(fmt.Sprintf("harness: response frame does not decode (tag %d): %v", tag, err))
+	}
+	return decoded
+}
+
+// describeResponse says what was sent, for the verdict
+func describeResponse(last bool, tag int64) string {
+	if !last || tag%5 == 1 {
+		_, _, what := pageShape(tag)
+		return fmt.Sprintf("continuous page (%s), LastContinuousPage=%v as sent", what, last)
+	}
+	return []string{"RESULT Void", "", "RESULT Rows without continuous paging", "READY", "ERROR Unavailable"}[tag%5]
 }
 
 func eventFrame(tag int64) *frame.Frame {
@@ -467,7 +525,9 @@ func runCaseOnce(c Case, verbose bool) (res Result) {
 			last := kind == 'L'
 			f := responseFrame(arg, last, int64(step))
 			if client.VerifIsLastFrame(f) != last {
-				viol("harness", "harness frame last=%v but isLastFrame says otherwise", last)
+				// the frame went through the real codec: what isLastFrame decides is the library's doing
+				viol("last-frame-misjudged", "isLastFrame says %v for a %s (decoded by the frame codec): the response is taken for %s",
+					!last, describeResponse(last, int64(step)), map[bool]string{true: "unfinished, the request will never complete", false: "complete while more pages are due: the entry is removed and the stream id released"}[last])
 			}
 			// the frame answers the oldest unanswered request sent with this id
 			target := shadow.oldest(arg)
